@@ -425,6 +425,14 @@ func compare(ctx reporter, ref *refDoc, obs map[string]*obox, desc string) (fail
 					f = ref.subtreeFeatures(r)
 				}
 				fail("height", r, uniq(f), fmt.Sprintf("expected border-box height %s, got %s", num(r.bh), num(o.bh)))
+				if !r.through && r.hAuto {
+					// what follows hangs below this bottom edge: if the edge is where the
+					// earlier displacement puts it, that displacement goes on from here
+					got := o.y + o.bh
+					if cons := math.Max(o.y+r.pt, r.rawBottom-r.pb+delta) + r.pb; near(got, cons) {
+						delta = got - (r.y + r.bh)
+					}
+				}
 			}
 		}
 	}
